@@ -295,6 +295,31 @@ func (w *world) gen() {
 			m.rcpts[0], m.rcpts[1] = m.rcpts[1], m.rcpts[0]
 		}
 		m.requireTLS, m.tlsOverride, m.quarantine, m.quarantineLate = true, false, false, false
+	} else if s.T.Choose(st, 8) == 0 {
+		// biased sub-scenario: the first message goes to two domains; the MX
+		// lookup of the first one fails at once while its (slow) MTA-STS fetch
+		// is still running, the second one publishes an enforced policy that the
+		// servers mostly do not satisfy and whose fetch takes longer still - what
+		// is learned late about the abandoned domain must not answer for the other
+		w.useSTS, w.dnsTempFail = true, true
+		a, b := "dest", "idn"
+		ra, rb := "alice@dest.example", "erin@тест.example"
+		if s.T.Choose(st, 2) == 0 {
+			a, b, ra, rb = b, a, rb, ra
+		}
+		w.dnsFailD = map[string]bool{a: true}
+		w.stsModeD = map[string]string{a: []string{"none", "none", "testing", "error"}[s.T.Choose(st, 4)], b: "enforce"}
+		d := [][2]time.Duration{{2 * time.Second, 20 * time.Second}, {0, 2 * time.Second}, {20 * time.Second, 400 * time.Second}, {2 * time.Second, 2 * time.Second}}[s.T.Choose(st, 4)]
+		w.stsDelayD = map[string]time.Duration{a: d[0], b: d[1]}
+		if s.T.Choose(st, 2) == 0 {
+			w.stsMX = []string{"mail.elsewhere.example"}
+		}
+		for _, mx := range w.mxs {
+			mx.down = false
+		}
+		m := w.msgs[0]
+		m.rcpts = []string{ra, rb}
+		m.requireTLS, m.tlsOverride, m.quarantine, m.quarantineLate = false, false, false, false
 	}
 }
 
@@ -445,7 +470,7 @@ func (w *world) dnsExchange(ctx context.Context, q *dns.Msg, server string) (*dn
 	switch qt {
 	case dns.TypeMX:
 		if isDest {
-			if w.dnsTempFail {
+			if w.dnsFailD[domKey(name)] {
 				r.Rcode = dns.RcodeServerFailure
 				return r, nil
 			}
